@@ -398,6 +398,22 @@ U = lambda n: ["user", n]   # noqa: E731
 INT, REAL = ["int", "_", "_"], ["real", "_", "_"]
 
 
+def const_divisors(e):
+    if not isinstance(e, list) or not e:
+        return True
+    if e[0] == "div":
+        d = e[2]
+        if not (isinstance(d, list) and d[0] in ("i", "r") and Fraction(d[1]) != 0):
+            return False
+    if e[0] in ("fl", "ifun"):
+        return all(const_divisors(a) for a in e[2:])
+    if e[0] in ("exists", "forall"):
+        return const_divisors(e[2])
+    if e[0] in ("b", "i", "r", "o", "p", "v"):
+        return True
+    return all(const_divisors(a) for a in e[1:])
+
+
 class HistGen:
     """Histories over the universe of upp.ProblemGen (types T > S, U; objects t1 s1 s2 u1; ten fluents) extended with
     types W < T, V < W, fresh fluents n0..n6, fresh objects and actions.  `pre` = the generated problem as a call
@@ -457,9 +473,12 @@ class HistGen:
             self.trajs.append(op[1])
 
     def ok(self, *exprs):
-        """can these expressions be built by the real constructors (the typed grammar is not perfect)"""
+        """can these expressions be built by the real constructors (the typed grammar is not perfect); divisors must be
+        non-zero constants (Problem.kind simplifies with static fluents replaced by their values and can divide by 0)"""
         try:
             for e in exprs:
+                if not const_divisors(e):
+                    return False
                 n = self.ctx.expr(e)
                 if e[0] not in LEAF:
                     enc_ty(n.type)
